@@ -137,6 +137,19 @@ def boolean_parts(mm):
     return []
 
 
+def non_numeric_parts(mm):
+    """Parts of a model matrix whose storage type is not a number type (an object array of numbers is not a numeric matrix)."""
+    import pandas as pd
+    import scipy.sparse as sp
+
+    obj = getattr(mm, "__wrapped__", mm)
+    if sp.issparse(obj) or isinstance(obj, np.ndarray):
+        return [] if obj.dtype.kind in "fiub" else [f"{type(obj).__name__} of dtype {obj.dtype}"]
+    if isinstance(obj, pd.DataFrame):
+        return [f"{c}:{d}" for c, d in obj.dtypes.items() if not (pd.api.types.is_numeric_dtype(d) or pd.api.types.is_bool_dtype(d))]
+    return []
+
+
 def judge(case) -> Outcome:
     import pandas as pd
     import pyarrow as pa
@@ -180,8 +193,7 @@ def judge(case) -> Outcome:
         kw["materializer"] = "narwhals"
     elif mat == "dict":  # a plain mapping of name -> column (the columns keep whatever dtype they were given)
         src = {k: (df[k].array if hasattr(df[k], "array") and not isinstance(col, np.ndarray) else data[k]) for k in data}
-        src["V"] = col
-        kw["materializer"] = "pandas"
+        src["V"] = col  # (no materializer named: plain mappings are dispatched to the pandas materializer)
     elif mat == "arrow":
         try:
             src = pa.Table.from_pandas(df, preserve_index=False)
@@ -202,6 +214,10 @@ def judge(case) -> Outcome:
         out.fail("c08.non_numeric_cell", f"{tag}: {e}; columns {colnames(mm)}")
         return out
     names = colnames(mm)
+    bad = non_numeric_parts(mm)
+    if bad:
+        out.fail("c08.non_numeric_matrix", f"{tag}: the matrix is not held in a number type ({bad[:3]})")
+        return out
     if not is_num:
         bad = boolean_parts(mm)
         if bad:  # indicator columns are numbers (0/1), not truth values: X.T @ X must be arithmetic
